@@ -417,7 +417,8 @@ package dastard
 //@     invariant w: dp.OFF != nil && allocated(dp.OFF) && dp.OFF.headerWritten && dp.OFF.writer != nil && allocated(dp.OFF.writer) && WInv(dp.OFF.writer) && dp.OFF.ModelInfo.projectors != nil && dp.OFF.ModelInfo.basis != nil
 //@     invariant count: dp.OFF.writer.items == ite(old(dp.OFF.headerWritten), old(dp.OFF.writer.items), 4) + rangeindex + 1 && dp.OFF.recordsWritten == old(dp.OFF.recordsWritten) + rangeindex + 1
 //@     invariant frozen: (dp.LJH22 != nil && dp.LJH22.HeaderWritten ==> dp.LJH22.writer != dp.OFF.writer) && (dp.LJH3 != nil && dp.LJH3.HeaderWritten ==> dp.LJH3.writer != dp.OFF.writer)
-//@     modifies dp.OFF.recordsWritten, dp.OFF.writer.n, dp.OFF.writer.acc, dp.OFF.writer.items, dp.OFF.writer.mark
+//@     modifies dp.OFF.recordsWritten, dp.OFF.writer.n, dp.OFF.writer.acc, dp.OFF.writer.items, dp.OFF.writer.mark, anyarray(float32)
+// (the float32 conversion buffer may be allocated per record or shared and refilled: WriteRecord copies it)
 //@   loop 4
-//@     invariant -1 <= rangeindex && rangeindex <= len(record.modelCoefs) - 1 && len(modelCoefs) == len(record.modelCoefs) && fresh(modelCoefs) && record != nil && allocated(record) && allocated(record.modelCoefs)
-//@     modifies modelCoefs[*]
+//@     invariant -1 <= rangeindex && rangeindex <= len(record.modelCoefs) - 1 && (len(modelCoefs) == len(record.modelCoefs) || len(modelCoefs) == rangeindex + 1) && record != nil && allocated(record) && allocated(record.modelCoefs)
+//@     modifies anyarray(float32)
